@@ -111,7 +111,7 @@ struct Acc {
     trials: u64,
     fired: u64,
     windows: u64,
-    points: HashSet<(u32, u64, usize)>,
+    points: HashSet<(String, u32, u64, u64)>,
     keys: HashSet<String>,
     samples: Vec<J>,
     bad: Vec<(String, String, String)>,
@@ -467,7 +467,7 @@ where
                     acc.trials += 1;
                     if fired {
                         acc.fired += 1;
-                        acc.points.insert((w.0, w.3, rip));
+                        acc.points.insert((format!("{}{}{}", ename, preset, dual), w.0, w.3, k));
                         acc.keys.insert(format!("{}:{}:p{}:{}#{}", if dual { "dual" } else { "scan" }, ename, preset, director::site_name(w.0), w.3));
                     }
                 }
@@ -653,7 +653,7 @@ fn chan_sweep(shard: u64, of: u64, stride: u64, seed: u64, acc: &mut Acc) {
                             acc.trials += 1;
                             if fired {
                                 acc.fired += 1;
-                                acc.points.insert((w.0, w.1, rip));
+                                acc.points.insert((format!("{}{}{}", op, prefill, nk), w.0, w.1, k));
                                 acc.keys.insert(format!("chan:{}:p{}:{}#{}:n{}", if op == pc::OP_SEND { "send" } else { "recv" }, prefill, if w.0 == 0 { "START" } else { director::site_name(w.0) }, w.1, nk));
                                 acc.nested_ops += pc::NEST_RAN.load(Ordering::SeqCst) - nest_before;
                             }
